@@ -34,6 +34,8 @@ ASSUMPTIONS = ["tolerance model: pips stops at feascond = max|g,h| / (1+max|x|) 
                "ext_grid+gen+dcline terminals (the split is not unique); skipped (labelled) for low-voltage solutions (min vm < 0.5 p.u., "
                "possible when no voltage band is declared: ill-conditioned), when every live bus is a slack bus, and for >1 ext_grid "
                "with calculate_voltage_angles=False (the power flow cannot take the angle as a setpoint)",
+               "a reproduction deviation counts only if it persists with 1000x tighter solver tolerances (PDIPM_*, OPF_VIOLATION): the "
+               "stopping rule of the interior-point solver is relative to max(|x|,|z|) and z contains squared p.u. branch ratings",
                "non-convergence and documented rejections are legal and counted"]
 
 FEASTOL = 5e-6
@@ -450,7 +452,25 @@ def check(case):
         # the OPF leaves the angle at further ext_grids free; a power flow without voltage angles cannot take it as a setpoint
         res.label("reproduction-not-representable")
     elif not res.failures:
-        check_reproduction(net, res, opt, sn, tol)
+        first = Result()
+        check_reproduction(net, first, opt, sn, tol)
+        if first.failures:
+            # the solver's stopping rule is relative to max(|x|, |z|), and the slack z of a current limit is the squared p.u. rating
+            # (5800 for a 76 MVA line on sn_mva = 1): the power balance may then be off by 1e-2 p.u. at "convergence" (seen).
+            # A deviation is therefore re-evaluated with 1000x tighter documented solver tolerances before it counts.
+            net_t, _ = gen.build(case)
+            ok = False
+            try:
+                with silence():
+                    gen.run_opf(net_t, opt, tight=True)
+                ok = bool(net_t.get("OPF_converged", False))
+            except Exception:
+                ok = False
+            if ok:
+                res.label("reproduce:retried-with-tight-tolerances")
+                check_reproduction(net_t, res, opt, sn, tolerances(net_t, sn, pwl_scale(case, sn)))
+            else:
+                res.label("reproduce:deviation-not-reevaluated")
     else:
         res.label("reproduction-skipped-after-limit-failure")
     if dead_dc and res.failures:
